@@ -5,11 +5,14 @@
 package main
 
 import (
+	"bytes"
 	"encoding/json"
 	"flag"
 	"fmt"
 	"math/rand"
 	"os"
+	"os/exec"
+	"strings"
 	"time"
 )
 
@@ -19,6 +22,42 @@ type replayFn func(r *Result, rp json.RawMessage)
 var realStderr *os.File
 
 var checks = map[string]checkFn{}
+
+// children: probes executed in a child process (vharness CHILD:<name> args...), each printing "step <what>" before
+// and "ok" after every step, so that the parent can tell which step killed the process
+var children = map[string]func(args []string){}
+
+// runChild runs a child probe and returns its stdout lines, its stderr tail and whether it finished.
+func runChild(name string, args ...string) (lines []string, stderr string, finished bool) {
+	exe, err := os.Executable()
+	if err != nil {
+		return nil, err.Error(), false
+	}
+	cmd := exec.Command(exe, append([]string{"CHILD:" + name}, args...)...)
+	var out, errb bytes.Buffer
+	cmd.Stdout, cmd.Stderr = &out, &errb
+	done := make(chan error, 1)
+	if err := cmd.Start(); err != nil {
+		return nil, err.Error(), false
+	}
+	go func() { done <- cmd.Wait() }()
+	select {
+	case <-done:
+	case <-time.After(120 * time.Second):
+		cmd.Process.Kill()
+		<-done
+	}
+	lines = strings.Split(strings.TrimSpace(out.String()), "\n")
+	e := errb.String()
+	if i := strings.Index(e, "panic:"); i >= 0 {
+		e = e[i:]
+	}
+	if len(e) > 1500 {
+		e = e[:1500]
+	}
+	return lines, e, len(lines) > 0 && lines[len(lines)-1] == "child-done"
+}
+
 var replays = map[string]replayFn{}
 
 func main() {
@@ -27,6 +66,20 @@ func main() {
 		os.Exit(2)
 	}
 	prop := os.Args[1]
+	if strings.HasPrefix(prop, "CHILD:") {
+		// a probe that may kill the process it runs in (a panic in a server goroutine): run by runChild
+		fn, ok := children[strings.TrimPrefix(prop, "CHILD:")]
+		if !ok {
+			os.Exit(2)
+		}
+		if dn, err := os.OpenFile(os.DevNull, os.O_WRONLY, 0); err == nil {
+			realStderr = os.Stderr
+			_ = dn
+		}
+		fn(os.Args[2:])
+		fmt.Println("child-done")
+		return
+	}
 	fs := flag.NewFlagSet("vharness", flag.ExitOnError)
 	tier := fs.String("tier", "quick", "")
 	seed := fs.Int64("seed", 1, "")
